@@ -116,13 +116,9 @@ def inject(stg, fr, ax, inj, bounded=True):
     sg, opts = inj['sig'], inj['opts']
     smear = opts['doppler_smearing']
     rng = S.range_of(ax, inj['range']) if bounded else None
+    pos, kw = S.call_options(opts, rng)
     return fr.add_signal(S.stg_path(stg, ax, sg['path'], smear), S.stg_t(stg, ax, sg['t']),
-                         S.stg_f(stg, ax, sg['f']), S.stg_bp(stg, ax, sg['bp']),
-                         bounding_f_range=rng, integrate_path=opts['integrate_path'],
-                         integrate_t_profile=opts['integrate_t_profile'],
-                         integrate_f_profile=opts['integrate_f_profile'], doppler_smearing=smear,
-                         t_subsamples=opts['t_subsamples'], f_subsamples=opts['f_subsamples'],
-                         smearing_subsamples=opts['smearing_subsamples'])
+                         S.stg_f(stg, ax, sg['f']), S.stg_bp(stg, ax, sg['bp']), *pos, **kw)
 
 
 def run_case(case, ctx):
